@@ -94,11 +94,15 @@ OpsFull ==
     [op |-> "DelBANP", name |-> "default"], [op |-> "DelBANP", name |-> "other"],
     O("Sweep") }
 
+(* the reduced catalogue contains, for every kind, a delete and an insert of the same key with other content, *)
+(* so that the exhaustive short histories include every delete / re-create pattern                           *)
 OpsSmall ==
-  { [op |-> "InsNs", nso |-> Ns("ns1", L1("team", "y"))], [op |-> "DelNs", name |-> "ns2"],
-    [op |-> "InsPod", pod |-> PBv], [op |-> "DelPod", ns |-> "ns1", name |-> "a-x1"], [op |-> "DelPod", ns |-> "ns2", name |-> "nosuch"],
-    [op |-> "InsNP", np |-> NP3], [op |-> "DelNP", ns |-> "ns1", name |-> "np1"],
-    [op |-> "InsANP", anp |-> ANPB], [op |-> "InsANP", anp |-> ANPC], [op |-> "DelANP", name |-> "anp-a"],
+  { [op |-> "InsNs", nso |-> Ns("ns1", L1("team", "y"))], [op |-> "DelNs", name |-> "ns1"],
+    [op |-> "InsNs", nso |-> Ns("ns2", L1("team", "x"))], [op |-> "DelNs", name |-> "ns2"],
+    [op |-> "InsPod", pod |-> PBv], [op |-> "DelPod", ns |-> "ns2", name |-> "b-x1"],
+    [op |-> "DelPod", ns |-> "ns1", name |-> "a-x1"], [op |-> "DelPod", ns |-> "ns2", name |-> "nosuch"],
+    [op |-> "InsNP", np |-> NP3], [op |-> "InsNP", np |-> NP1v], [op |-> "DelNP", ns |-> "ns1", name |-> "np1"],
+    [op |-> "InsANP", anp |-> ANPB], [op |-> "InsANP", anp |-> ANPC], [op |-> "InsANP", anp |-> ANPAv], [op |-> "DelANP", name |-> "anp-a"],
     [op |-> "InsBANP", banp |-> BANPD], [op |-> "DelBANP", name |-> "default"], O("Sweep") }
 
 Ops == IF Small THEN OpsSmall ELSE OpsFull
